@@ -334,13 +334,13 @@ func (c *Ctx) ancestorFill(ml *ssa.Function) *ancFill {
 					af.problems = append(af.problems, ancProblem{"fillLookup receiver", "lookup filled from " + trunc(recv, 100), in})
 				}
 				// every ancestor enters the chain: the append is guarded by nothing but `parent is a *Command`
-				for _, b2 := range ml.Blocks {
+				for _, b2 := range c.blocks(ml) { // (also where the walk was moved into a new helper)
 					for _, in2 := range b2.Instrs {
 						ap, ok := in2.(*ssa.Call)
 						if !ok || c.calleeName(ap.Common()) != "append" || !strings.HasPrefix(c.term(ap), "append(phi{append(phi↺, slice(new:[1]*Command") {
 							continue
 						}
-						for _, d := range c.controlDeps(ml, b2) {
+						for _, d := range c.controlDeps(b2.Parent(), b2) {
 							l, ok := c.edgeLit(d.B, d.Succ)
 							if !ok {
 								continue
